@@ -118,5 +118,18 @@ claim("C13", "model_checking",
       "(DSD: 1/(D_CJ - alpha/r)) where two finite-difference steps agree (kinks of the min/max composition are skipped).",
       MEAS, TECH, "DESIGN.md 9 C13")
 
+claim("C15", "model_checking",
+      "(a) Tier A exact model spec/Exact_Elastic.tla: 33 rational materials (lambda, G) incl. auxetic, lambda = 0 and non-positive-definite ones; TLC proves the isotropic identities "
+      "and the equivalence of the two positive-definiteness criteria exactly on the grid and enumerates the 15 parameter pairs; every state is replayed on Blake's constructor and "
+      "spec/TraceElastic.tla checks that the solver's six parameters reproduce the supplied pair, satisfy the identities and equal the model's (either root for the two-valued (E, M) pair), "
+      "and that non-PD materials are rejected. (b) Field laws (Catalogue.FieldLaws): wave equation with the longitudinal speed, strains = derivatives of the displacement, Hooke's law, "
+      "pressure, deviators, density, sigma_rr = -p0 on the cavity wall, zero ahead of the front, on the Blake campaign.",
+      MEAS, "exact rational TLA+ model checked by TLC + conformance replay; TLA+ trace validation of measured field laws", "DESIGN.md 9 C15")
+claim("C16", "model_checking",
+      "spec/EosCampaign.tla enumerates EOS classes x constants x states in the domain of validity, the four residual formulations x symmetries x initial states, and Newton solves; "
+      "the harness measures closure inverses, analytic partials vs 4th-order central differences, Jacobian entries vs differences of the residual, equilibrated J J^-1 - I, and the jump "
+      "conditions of converged solves (planar symmetry for non-ideal EOS, all symmetries for the ideal gas); spec/TraceEos.tla checks each term vector (2e-5) and D > 0.",
+      MEAS, TECH, "DESIGN.md 9 C16")
+
 for p in [ "C07", "C08", "C09", "C10", "C11", "C12", "C13", "C14", "C15", "C16", "C18", "C19", "C20"]:
     pending(p, "check under construction in this round (design in DESIGN.md section 9); not claimed until it runs soundly on the unchanged tree")
